@@ -358,6 +358,7 @@ pub fn flatten__sink_talkback<T>(h: &mut Heap, g: &mut Ghost<G<T>>, c: &Cap, mes
     BODY!("sink_talkback");
 }
 
+//@split Handshake Data Error Terminate
 #[verifier::exec_allows_no_decreases_clause]
 pub fn flatten__outer_source_talkback<T>(h: &mut Heap, g: &mut Ghost<G<T>>, c: &Cap, message: Message<InnerSrc, OuterTb>)
     requires
@@ -380,6 +381,7 @@ pub fn flatten__outer_source_talkback<T>(h: &mut Heap, g: &mut Ghost<G<T>>, c: &
     BODY!("outer_source_talkback");
 }
 
+//@split Handshake Data Error Terminate
 #[verifier::exec_allows_no_decreases_clause]
 pub fn flatten__inner_source_talkback<T>(h: &mut Heap, g: &mut Ghost<G<T>>, c: &Cap, k: Ghost<int>, my_gen: usize, message: Message<T, InnerTb>)
     requires
